@@ -136,7 +136,8 @@ Definition table_ok (c : cfg) : bool :=
   && forallb (fun s => negb (core (s_meth s)) && negb (plain_excl (s_meth s))) (reader_sites c)
   && forallb (fun s => negb (meth_eqb (s_meth s) MPrepare)) (apply_sites c)
   && (c_load_atomic_pool c || c_pool_rechecks c)
-  && (c_load_atomic_engine c || c_apply_checks_stopped c).
+  && (c_load_atomic_engine c || c_apply_checks_stopped c)
+  && c_pool_stop_before_unload c.
 
 Section Proofs.
 Variable c : cfg.
@@ -152,8 +153,12 @@ Lemma tab_parts :
   /\ (c_load_atomic_pool c || c_pool_rechecks c) = true
   /\ (c_load_atomic_engine c || c_apply_checks_stopped c) = true.
 Proof.
-  pose proof Htab as H. unfold table_ok in H. repeat (apply andb_prop in H; destruct H as [H ?]). tauto.
+  pose proof Htab as H. unfold table_ok in H. apply andb_prop in H. destruct H as [H _].
+  repeat (apply andb_prop in H; destruct H as [H ?]). tauto.
 Qed.
+
+Lemma tab_stop : c_pool_stop_before_unload c = true.
+Proof. pose proof Htab as H. unfold table_ok in H. apply andb_prop in H. tauto. Qed.
 
 Lemma getT_set_thr st l j : getT (set_thr st l) j = nth j l idle_thread.
 Proof. reflexivity. Qed.
@@ -730,6 +735,89 @@ Proof.
   - intros k1 k2 a b Hne. rewrite !nthU; auto. ucase w k1; ucase w k2; try congruence; try discriminate. apply Hadm; auto.
 Qed.
 
+(* pool shutdown: all references of the pool are dropped at once *)
+Lemma clear_busy_idle : clear_busy idle_thread = idle_thread.
+Proof. reflexivity. Qed.
+
+Lemma clear_busy_facts t :
+  t_job (clear_busy t) = t_job t /\ t_ph (clear_busy t) = t_ph t /\ t_busy (clear_busy t) = None
+  /\ holdsS (clear_busy t) = holdsS t /\ holdsD (clear_busy t) = holdsD t
+  /\ is_idle (clear_busy t) = is_idle t /\ (is_busy t = false -> clear_busy t = t).
+Proof.
+  unfold clear_busy, is_busy_t, is_busy. destruct (t_busy t) eqn:E; simpl; repeat split; auto; discriminate.
+Qed.
+
+Lemma nth_clear st k : nth k (map clear_busy (thr st)) idle_thread = clear_busy (getT st k).
+Proof. unfold getT. rewrite <- clear_busy_idle at 1. apply map_nth. Qed.
+
+Lemma busy_count_clear l : busy_count (map clear_busy l) = 0.
+Proof.
+  unfold busy_count. induction l; simpl; auto.
+  destruct (clear_busy_facts a) as (_ & _ & Hb & _). unfold is_busy at 1. rewrite Hb. exact IHl.
+Qed.
+
+Lemma inv_poolshutdown st st' : inv c st -> step c st APoolShutdown = Some st' -> inv c st'.
+Proof.
+  intros H Hs. simpl in Hs. rewrite tab_stop in Hs. simpl in Hs.
+  match type of Hs with (if ?g then _ else _) = _ => destruct g eqn:G; [|discriminate] end.
+  apply andb_prop in G. destruct G as [G1 G2]. apply negb_true_iff in G1.
+  inversion Hs; subst st'; clear Hs.
+  pose proof (ap_quiet st H) as Hq. pose proof H as Hinv. inv_destruct H.
+  assert (Hidle : forall k, is_busy (getT st k) = true -> is_idle (getT st k) = true).
+  { intros k Hk. destruct (Nat.lt_ge_cases k (List.length (thr st))) as [Hlt|Hge].
+    - rewrite forallb_forall in G2. specialize (G2 (getT st k) (nth_In _ _ Hlt)).
+      change (is_busy_t (getT st k)) with (is_busy (getT st k)) in G2. rewrite Hk in G2. exact G2.
+    - rewrite getT_beyond; auto. }
+  assert (Hsame : forall k, t_job (clear_busy (getT st k)) = t_job (getT st k)
+                        /\ t_ph (clear_busy (getT st k)) = t_ph (getT st k)).
+  { intros k. destruct (clear_busy_facts (getT st k)) as (A & B & _). auto. }
+  assert (Hnb : forall k, role_of c k <> RSnap -> clear_busy (getT st k) = getT st k).
+  { intros k Hr. apply clear_busy_facts. apply (not_busy_role st k Hinv Hr). }
+  assert (H0 : clear_busy (getT st 0) = getT st 0) by (apply Hnb; discriminate).
+  assert (H1 : clear_busy (getT st 1) = getT st 1) by (apply Hnb; discriminate).
+  change (count_busy (thr st)) with (busy_count (thr st)) in *.
+  set (dec := (if ref_eqb (pool_ref st) Loaded then 1 else 0) + busy_count (thr st)).
+  assert (Hcnt' : cnt st - dec = b2n (negb (stopped st)) + b2n (ref_eqb (ap_ref st) Loaded)).
+  { unfold dec. rewrite Hcnt. destruct (ref_eqb (pool_ref st) Loaded); simpl; lia. }
+  assert (HT1 : forall st2, thr st2 = map clear_busy (thr st) -> getT st2 1 = getT st 1).
+  { intros st2 E. unfold getT at 1. rewrite E, nth_clear. exact H1. }
+  constructor; unfold getT; simpl; rewrite ?nth_clear, ?H0, ?H1.
+  - rewrite map_length. auto.
+  - intros k. rewrite nth_clear. destruct (clear_busy_facts (getT st k)) as (A & B & C & _ & _ & _ & D).
+    destruct (is_busy (getT st k)) eqn:Eb.
+    + rewrite A. specialize (Hidle k Eb). unfold is_idle in Hidle. destruct (t_job (getT st k)); [constructor|discriminate].
+    + rewrite (D eq_refl). apply Hjob.
+  - intros k. rewrite nth_clear. unfold is_busy. destruct (clear_busy_facts (getT st k)) as (_ & _ & C & _). rewrite C. discriminate.
+  - intros a b Hab. rewrite !nth_clear. destruct (clear_busy_facts (getT st a)) as (_ & _ & _ & A & _).
+    destruct (clear_busy_facts (getT st b)) as (_ & _ & _ & B & _). rewrite A, B. auto.
+  - intros a b Hab. rewrite !nth_clear. destruct (clear_busy_facts (getT st a)) as (_ & _ & _ & _ & A & _).
+    destruct (clear_busy_facts (getT st b)) as (_ & _ & _ & _ & B & _). rewrite A, B. auto.
+  - rewrite busy_count_clear. fold dec. rewrite Hcnt'. simpl. lia.
+  - exact Hap.
+  - auto.
+  - intros _. discriminate.
+  - intros X. discriminate.
+  - intros X. rewrite busy_count_clear.
+    assert (Hcase : closing st \/ cnt st - dec = 0).
+    { unfold closing in *. unfold getT in X at 1. simpl in X. rewrite nth_clear, H1 in X. destruct X as [X|[X|X]]; auto.
+      apply orb_prop in X. destruct X as [X|X]; auto. apply andb_prop in X. destruct X as [_ X].
+      apply Nat.eqb_eq in X. fold dec in X. auto. }
+    destruct Hcase as [Y|Y].
+    + apply Hclosing in Y. destruct Y as (X1 & X2 & X3 & X4 & X5 & X6 & X7). repeat split; auto. intros _. discriminate.
+    + rewrite Hcnt' in Y. destruct (stopped st) eqn:Es; simpl in Y; [|lia].
+      destruct (ref_eqb (ap_ref st) Loaded) eqn:Ea; simpl in Y; [lia|].
+      assert (Hna : ap_ref st <> Loaded) by (intro Z; rewrite Z in Ea; discriminate).
+      destruct (Hq Hna). repeat split; auto. intros _. discriminate.
+  - exact Hcloser.
+  - auto.
+  - intros k s r. rewrite nth_clear. intros Hj. destruct (Hsame k) as [A B]. rewrite A in Hj. rewrite B. eapply Hchk; eauto.
+  - intros k. rewrite nth_clear. unfold running_stream. destruct (clear_busy_facts (getT st k)) as (_ & _ & C & _). rewrite C. discriminate.
+  - intros a b _. rewrite !nth_clear. unfold running_stream at 1. destruct (clear_busy_facts (getT st a)) as (_ & _ & C & _). rewrite C. discriminate.
+  - auto.
+  - exact Hcj.
+  - intros a b x y _. rewrite !nth_clear. intros X. destruct (clear_busy_facts (getT st a)) as (_ & _ & C & _). rewrite C in X. discriminate.
+Qed.
+
 (* ---------- one phase step of a thread ---------- *)
 Definition closer_pred (t : thread) (cl de : bool) : Prop :=
   match t_job t with
@@ -957,6 +1045,7 @@ Proof.
   - eapply inv_poolincr; eauto.
   - eapply inv_poolcheck; eauto.
   - eapply inv_pooloffload; eauto.
+  - eapply inv_poolshutdown; eauto.
   - eapply inv_schedule; eauto.
   - eapply inv_completed; eauto.
   - eapply inv_readerstart; eauto.
@@ -1270,7 +1359,7 @@ Definition table_before_fix :=
   ++ filter (fun r => match r with (root, _, _, _, _, _) => negb (String.eqb root "Close") end) lock_table.
 Definition cfg_before_fix (k : kind) (nsnap : nat) : cfg :=
   mkCfg (sites_of_table table_before_fix) k nsnap engine_load_inside_foreach pool_load_inside_foreach
-        apply_checks_stopped pool_rechecks_before_schedule.
+        apply_checks_stopped pool_rechecks_before_schedule pool_stops_workers_before_unload.
 
 (* NodeHost stops the shard, the close worker is inside the user Close, a client
    holding a completed ReadIndex reads locally: Lookup runs beside (and after the
@@ -1290,4 +1379,27 @@ Proof. exists f4_schedule. vm_compute. repeat split; reflexivity. Qed.
    mutex Close holds *)
 Lemma f4_schedule_now : calls (run (gen_cfg Plain 1) (init 4) f4_schedule) = [(1%nat, MClose)].
 Proof. vm_compute. reflexivity. Qed.
+
+(* ---------- the order of the pool's shutdown calls matters ---------- *)
+(* the generated configuration with unloadNodes() BEFORE workerStopper.Stop() *)
+Definition cfg_unload_first (k : kind) (nsnap : nat) : cfg :=
+  mkCfg gen_sites k nsnap engine_load_inside_foreach pool_load_inside_foreach
+        apply_checks_stopped pool_rechecks_before_schedule false.
+
+(* a save job is inside SaveSnapshot (resp. a recover job inside RecoverFromSnapshot),
+   NodeHost.Close stops the node and the pool drops the busy reference without
+   waiting: the counter reaches 0 and the close worker enters Close *)
+Definition unload_first_schedule (j : jobkind) (steps : nat) : list action :=
+  [APoolLoad; APoolIncr; APoolCheck; ASchedule 2 j] ++ repeat (AThr 2) steps
+  ++ [AStop; APoolShutdown; ACloseStart; AThr 1; AThr 1; AThr 1; AThr 1].
+
+Theorem unload_before_stop_refuted_proved :
+  (let st := run (cfg_unload_first Plain 1) (init 4) (unload_first_schedule JSave 4) in
+   calls st = [(1%nat, MClose); (2%nat, MSave)] /\ overlap plain_rw plain_excl st = true)
+  /\ (let st := run (cfg_unload_first Conc 1) (init 4) (unload_first_schedule JRecover 4) in
+      calls st = [(1%nat, MClose); (2%nat, MRecover)] /\ overlap core core st = true)
+  /\ (* with the generated order the same schedules never reach Close *)
+     calls (run (gen_cfg Plain 1) (init 4) (unload_first_schedule JSave 4)) = [(2%nat, MSave)]
+  /\ calls (run (gen_cfg Conc 1) (init 4) (unload_first_schedule JRecover 4)) = [(2%nat, MRecover)].
+Proof. vm_compute. repeat split; reflexivity. Qed.
 
